@@ -1,6 +1,6 @@
 // Implementation side of the C24 correspondence and direct oracle.
 //
-// stdin : one source per line, hex encoded ("-" = empty); a leading "+" asks for the SourceEx clause as well
+// stdin : one source per line, hex encoded ("-" = empty); a leading "+" asks for the SourceEx clause as well (class=false), "*" for the clause with class=true
 //         (otherwise s1, s2, se are "?")
 // stdout: toks TAB s1 TAB rimpl TAB s2 TAB se TAB ochunks TAB oflags TAB verdict
 //
@@ -65,13 +65,13 @@ func scan(src []byte) (toks []tk, perr string) {
 	}
 }
 
-func source(src []byte) (r string) {
+func source(src []byte, class bool) (r string) {
 	defer func() {
 		if e := recover(); e != nil {
 			r = "E" // a panic of format.Source is the business of C19; here it only counts as "no success"
 		}
 	}()
-	out, err := format.Source(src, false, "a.xgo")
+	out, err := format.Source(src, class, "a.xgo")
 	if err != nil {
 		return "E"
 	}
@@ -79,13 +79,13 @@ func source(src []byte) (r string) {
 	return "O:" + hex.EncodeToString(h[:6])
 }
 
-func sourceEx(src []byte) (r string) {
+func sourceEx(src []byte, class bool) (r string) {
 	defer func() {
 		if e := recover(); e != nil {
 			r = "E"
 		}
 	}()
-	out, err := formatutil.SourceEx(src, false, "a.xgo")
+	out, err := formatutil.SourceEx(src, class, "a.xgo")
 	if err != nil {
 		return "E"
 	}
@@ -180,7 +180,7 @@ func sortedBytes(b []byte) string {
 	return string(c)
 }
 
-func run(src []byte, withSource bool) string {
+func run(src []byte, withSource, class bool) string {
 	toks, perr := scan(src)
 	var tf []string
 	tiling := true
@@ -194,7 +194,7 @@ func run(src []byte, withSource bool) string {
 	}
 	s1 := "?"
 	if withSource {
-		s1 = source(src)
+		s1 = source(src, class)
 	}
 	out, panicked := rearrange(src)
 	verdict := ""
@@ -204,12 +204,12 @@ func run(src []byte, withSource bool) string {
 	} else {
 		rimpl = hx(out)
 		if withSource {
-			s2 = source(out)
+			s2 = source(out, class)
 		}
 	}
 	se := "?"
 	if withSource {
-		se = sourceEx(src)
+		se = sourceEx(src, class)
 	}
 	// oracle chunking
 	ochunks, oflags := "NONE", ""
@@ -301,8 +301,9 @@ func main() {
 	defer w.Flush()
 	for sc.Scan() {
 		l := strings.TrimSpace(sc.Text())
-		withSource := strings.HasPrefix(l, "+") // evaluate the SourceEx clause too
-		l = strings.TrimPrefix(l, "+")
+		class := strings.HasPrefix(l, "*") // "*": SourceEx clause with class=true, "+": with class=false
+		withSource := class || strings.HasPrefix(l, "+")
+		l = strings.TrimLeft(l, "+*")
 		var src []byte
 		if l != "-" && l != "" {
 			b, err := hex.DecodeString(l)
@@ -312,6 +313,6 @@ func main() {
 			}
 			src = b
 		}
-		fmt.Fprintln(w, run(src, withSource))
+		fmt.Fprintln(w, run(src, withSource, class))
 	}
 }
